@@ -43,7 +43,9 @@ def gen_opts(rng):
     return {"function_type": rng.choice(KINDS), "inline_types": rng.random() < 0.5,
             "emit_as_kwonlyargs": rng.random() < 0.5, "indent_level": rng.choice([0, 1, 2]),
             "emit_separating_tab": rng.random() < 0.5, "emit_default_doc": rng.random() < 0.3,
-            "word_wrap": rng.random() < 0.8}
+            "word_wrap": rng.random() < 0.8,
+            # the kind is not passed to emit.function but carried by the IR (as after parse.function of a method)
+            "type_from_ir": rng.random() < 0.2}
 
 
 def opts_wire(o, pt):
@@ -69,7 +71,9 @@ class Trip(object):
         self.node = self.src = self.node2 = self.out = self.doc_ir = None
         self.stage, self.exc = "emit", None
         ir_in = od(ir)
-        emit_o = {"function_name": "f", "function_type": o["function_type"], "word_wrap": o["word_wrap"],
+        if o.get("type_from_ir"):
+            ir_in["type"] = o["function_type"]
+        emit_o = {"function_name": "f", "function_type": None if o.get("type_from_ir") else o["function_type"], "word_wrap": o["word_wrap"],
                   "emit_default_doc": o["emit_default_doc"], "indent_level": o["indent_level"],
                   "emit_separating_tab": o["emit_separating_tab"], "inline_types": o["inline_types"],
                   "emit_as_kwonlyargs": o["emit_as_kwonlyargs"]}
